@@ -343,9 +343,9 @@ func outcomeClass(o outcome) string {
 // ---------- phase: grammar token sequences ----------
 
 func runParseGrammar(r *core.Run, cache *sigCache, bounds map[string]interface{}) bool {
-	maxTok := r.Pick(9, 11)
-	revTok := r.Pick(7, 9)
-	budget := int64(r.Pick(250000, 6000000))
+	maxTok := pickL(9, 11)
+	revTok := pickL(7, 9)
+	budget := int64(pickL(250000, 6000000))
 	g := core.MustGrammar(shapeGrammar, maxTok)
 	var totalCases, totalShapes int64
 	for n := 1; n <= maxTok; n++ {
@@ -381,15 +381,15 @@ func runParseGrammar(r *core.Run, cache *sigCache, bounds map[string]interface{}
 					accepted++
 				}
 			}
-			r.NontrivialN(accepted)
+			countNT(r, accepted, n > 9)
 		})
 		if !ok {
-			bounds["parse grammar"] = fmt.Sprintf("tokens<=%d complete (%d shapes, %d texts); %d tokens cut by deadline", n-1, totalShapes, totalCases, n)
+			bounds[bkey("parse grammar")] = fmt.Sprintf("tokens<=%d complete (%d shapes, %d texts); %d tokens cut by deadline", n-1, totalShapes, totalCases, n)
 			return false
 		}
 		totalCases += total
 		totalShapes += cnt
-		bounds["parse grammar"] = fmt.Sprintf("tokens<=%d complete: %d shapes, %d texts (slot alphabets: %d scalars / %d keys, reduced per shape to keep <=%d texts per shape); revivers (%d) on accepted texts of <=%d tokens", n, totalShapes, totalCases, len(scalarsFull), len(keysFull), budget, len(revivers)-1, revTok)
+		bounds[bkey("parse grammar")] = fmt.Sprintf("tokens<=%d complete: %d shapes, %d texts (slot alphabets: %d scalars / %d keys, reduced per shape to keep <=%d texts per shape); revivers (%d) on accepted texts of <=%d tokens", n, totalShapes, totalCases, len(scalarsFull), len(keysFull), budget, len(revivers)-1, revTok)
 	}
 	return true
 }
@@ -419,7 +419,7 @@ func tokenizeSimple(text string) []string {
 }
 
 func runWhitespace(r *core.Run, cache *sigCache, bounds map[string]interface{}) bool {
-	maxTok := r.Pick(5, 6)
+	maxTok := pickL(5, 6)
 	g := core.MustGrammar(shapeGrammar, maxTok)
 	type job struct {
 		toks []string
@@ -449,7 +449,7 @@ func runWhitespace(r *core.Run, cache *sigCache, bounds map[string]interface{}) 
 			}
 			toks := tokenizeSimple(sb.String())
 			ws := wsFull
-			if len(toks) > r.Pick(4, 5) {
+			if len(toks) > pickL(4, 5) {
 				ws = wsSmall
 			}
 			size := int64(1)
@@ -486,15 +486,15 @@ func runWhitespace(r *core.Run, cache *sigCache, bounds map[string]interface{}) 
 				r.Sample(map[string]interface{}{"family": "parse-whitespace", "rank": idx, "text": text})
 			}
 			if w.parseText(jm.S(text), fmt.Sprintf("whitespace/rank=%d", idx), parseOpts{}) {
-				r.NontrivialN(1)
+				countNT(r, 1, false)
 			}
 		}
 	})
 	if !ok {
-		bounds["parse white space"] = "cut by deadline"
+		bounds[bkey("parse white space")] = "cut by deadline"
 		return false
 	}
-	bounds["parse white space"] = fmt.Sprintf("all %d placements of %d white-space candidates (4 legal, 12 illegal) in every gap of the %d token skeletons of <=%d tokens", total, len(wsFull), len(jobs), maxTok)
+	bounds[bkey("parse white space")] = fmt.Sprintf("all %d placements of %d white-space candidates (4 legal, 12 illegal) in every gap of the %d token skeletons of <=%d tokens", total, len(wsFull), len(jobs), maxTok)
 	return true
 }
 
@@ -503,8 +503,8 @@ func runWhitespace(r *core.Run, cache *sigCache, bounds map[string]interface{}) 
 var editUnits = jm.S("\"\\/[]{},:01-+.eEutna \n\t\x00\x7f\u00e9\u2028")
 
 func runEdits(r *core.Run, cache *sigCache, bounds map[string]interface{}) bool {
-	maxTok := r.Pick(5, 6)
-	budget := int64(r.Pick(10000, 100000))
+	maxTok := pickL(5, 6)
+	budget := int64(pickL(10000, 100000))
 	g := core.MustGrammar(shapeGrammar, maxTok)
 	var shapes []*pshape
 	var offs []int64
@@ -545,7 +545,7 @@ func runEdits(r *core.Run, cache *sigCache, bounds map[string]interface{}) bool 
 				if !t.WellFormed() {
 					return // a broken surrogate pair in the input is the documented exception
 				}
-				if !w.parseText(t, fam, parseOpts{}) {
+				if !w.parseText(t, fam, parseOpts{}) && tierLevel == 0 {
 					w.r.NontrivialH(core.HashString(k))
 				}
 			}
@@ -573,10 +573,10 @@ func runEdits(r *core.Run, cache *sigCache, bounds map[string]interface{}) bool 
 		mu.Unlock()
 	})
 	if !ok {
-		bounds["parse edits"] = "cut by deadline"
+		bounds[bkey("parse edits")] = "cut by deadline"
 		return false
 	}
-	bounds["parse edits"] = fmt.Sprintf("all %d distinct single-code-unit edits (delete / insert / replace with each of %d units) of all %d accepted texts of <=%d tokens", edits, len(editUnits), bases, maxTok)
+	bounds[bkey("parse edits")] = fmt.Sprintf("all %d distinct single-code-unit edits (delete / insert / replace with each of %d units) of all %d accepted texts of <=%d tokens", edits, len(editUnits), bases, maxTok)
 	return true
 }
 
@@ -585,7 +585,7 @@ func runEdits(r *core.Run, cache *sigCache, bounds map[string]interface{}) bool 
 func runNesting(r *core.Run, cache *sigCache, bounds map[string]interface{}) bool {
 	openers := []struct{ open, close string }{{"[", "]"}, {`{"a":`, "}"}, {"[1,", "]"}, {`{"b":1,"a":`, `,"c":2}`}}
 	leaves := []string{"1", "[]", "{}", `"a"`}
-	maxDepth := r.Pick(7, 8)
+	maxDepth := pickL(7, 8)
 	complete := true
 	var count int64
 	for d := 1; d <= maxDepth && complete; d++ {
@@ -607,17 +607,17 @@ func runNesting(r *core.Run, cache *sigCache, bounds map[string]interface{}) boo
 					post = o.close + post
 				}
 				if w.parseText(jm.S(pre+leaf+post), fmt.Sprintf("nesting/depth=%d/rank=%d", d, idx), parseOpts{canon: true, revivers: d <= 4}) {
-					r.NontrivialN(1)
+					countNT(r, 1, d > 7)
 				}
 			}
 		})
 		if !ok {
 			complete = false
-			bounds["parse nesting"] = fmt.Sprintf("depth<=%d complete", d-1)
+			bounds[bkey("parse nesting")] = fmt.Sprintf("depth<=%d complete", d-1)
 			break
 		}
 		count += total
-		bounds["parse nesting"] = fmt.Sprintf("all %d nestings of depth<=%d over %d container frames x %d innermost values", count, d, len(openers), len(leaves))
+		bounds[bkey("parse nesting")] = fmt.Sprintf("all %d nestings of depth<=%d over %d container frames x %d innermost values", count, d, len(openers), len(leaves))
 	}
 	// homogeneous deep nesting within the property's range of interest
 	w := newWorker(r, cache)
@@ -634,7 +634,7 @@ func runNesting(r *core.Run, cache *sigCache, bounds map[string]interface{}) boo
 var symbols = []string{"1", `"a"`, "[", "]", "{", "}", ",", ":", "\"", "\\", "0", "-", ".", "e", "true", "null", " ", "\n", "u", "a"}
 
 func runSymbols(r *core.Run, cache *sigCache, bounds map[string]interface{}) bool {
-	maxLen := r.Pick(5, 6)
+	maxLen := pickL(5, 6)
 	k := int64(len(symbols))
 	for l := 1; l <= maxLen; l++ {
 		total := int64(1)
@@ -655,10 +655,10 @@ func runSymbols(r *core.Run, cache *sigCache, bounds map[string]interface{}) boo
 			}
 		})
 		if !ok {
-			bounds["parse symbol strings"] = fmt.Sprintf("length<=%d complete over %d symbols; length %d cut by deadline", l-1, k, l)
+			bounds[bkey("parse symbol strings")] = fmt.Sprintf("length<=%d complete over %d symbols; length %d cut by deadline", l-1, k, l)
 			return false
 		}
-		bounds["parse symbol strings"] = fmt.Sprintf("all strings of length<=%d over %d symbols", l, k)
+		bounds[bkey("parse symbol strings")] = fmt.Sprintf("all strings of length<=%d over %d symbols", l, k)
 	}
 	return true
 }
